@@ -13,6 +13,9 @@ def _raise(cls, *args):
 
 
 def call(E, name, args, kwargs, node):
+    from . import bytesmodel
+    if name in bytesmodel.LIB and not E.mod_init:
+        return bytesmodel.LIB[name](E, args, kwargs, node)
     fn = TABLE.get(name)
     if fn is not None:
         return fn(E, args, kwargs, node)
